@@ -739,6 +739,11 @@ HEADER = ("(* GENERATED by /verif/translator/predicates.py from the Python sourc
           "   PS false false false false true false; PS false false false false false true].\n\n")
 
 
+def _comment_safe(s):
+    """text that cannot end or nest a Coq comment or open a string inside it"""
+    return s.replace("*)", "* )").replace("(*", "( *").replace('"', "'")
+
+
 class Result:
     def __init__(self):
         self.preds = {}          # name -> Pred
@@ -755,7 +760,7 @@ def generate(repo):
     except TranslationError as e:
         for g in GROUPS:
             res.problems.setdefault(g, []).append(str(e))
-        res.text = txt + "(* TRANSLATION ERROR: %s *)\n" % str(e).replace("*)", "* )")
+        res.text = txt + "(* TRANSLATION ERROR: %s *)\n" % _comment_safe(str(e))
         return res
     for group, label, fn in TASKS:
         try:
@@ -768,7 +773,7 @@ def generate(repo):
         except TranslationError as e:
             res.problems.setdefault(group, []).append(str(e))
             txt += "(* TRANSLATION ERROR (%s: %s): %s\n   nothing is emitted for it: the lemmas of Tie/Preds_%s.v about it do not compile *)\n\n" % (
-                group, label, str(e).replace("*)", "* )").replace("(*", "( *"), group)
+                group, label, _comment_safe(str(e)), group)
     res.text = txt
     return res
 
